@@ -114,6 +114,7 @@ Proof.
   unfold run_program.
   destruct (qamount q =? 0); [discriminate|].
   destruct (hbal h <? qamount q) eqn:Hbal; [discriminate|].
+  destruct (max_instructions <? qdeclared q); [discriminate|].
   rewrite spend_init by assumption.
   destruct (qamount q <? ptInit (qpt q)) eqn:Hinit; [discriminate|].
   destruct (attach q && negb (qcontract q)); [discriminate|].
@@ -147,6 +148,7 @@ Proof.
   { intros e0 H. injection H as <- _. unfold rejected_post. repeat split; try lia. }
   destruct (qamount q =? 0); [apply Hsame|].
   destruct (hbal h <? qamount q) eqn:Hbal; [apply Hsame|].
+  destruct (max_instructions <? qdeclared q); [apply Hsame|].
   rewrite spend_init by assumption.
   destruct (qamount q <? ptInit (qpt q)) eqn:Hinit; [apply Hsame|].
   destruct (attach q && negb (qcontract q)); [apply Hsame|].
@@ -219,7 +221,7 @@ Definition ex_h : hstate := {| hbal := 1000000; hrev := 3; hroots := [11; 22]; h
 (* data: count = 1 at offset 0, length = 64 at offset 8, offset = 0 at offset 16 *)
 Definition ex_data : pdata := mkpd 24 [1;0;0;0;0;0;0;0; 64;0;0;0;0;0;0;0; 0;0;0;0;0;0;0;0] 0 [].
 Definition ex_q (prog : list (instr * env)) : request :=
-  {| qamount := 100000; qcontract := true; qprog := prog; qdata := ex_data; qpt := ex_pt; qdur := 10;
+  {| qamount := 100000; qcontract := true; qdeclared := 2; qprog := prog; qdata := ex_data; qpt := ex_pt; qdur := 10;
      qfinal := Some 4 |}.
 Definition ex_good := ex_q [(IReadOffset 8 16 true, ex_env); (IDropSectors 0 true, ex_env)].
 (* second instruction reads its operand at offset 2^64-8 *)
